@@ -328,14 +328,17 @@ struct PSet {
     int n, N, k, l, Bgbit, t, basebit; double ks_stdev, bk_stdev, max_stdev;
     LweParams *lwe = nullptr; TLweParams *tlwe = nullptr; TGswParams *tgsw = nullptr;
     TFheGateBootstrappingParameterSet *gb = nullptr;
-    PSet(int n, int N, int k, int l, int Bgbit, int t, int basebit, double ks_stdev, double bk_stdev, double max_stdev = 0.012467)
-            : n(n), N(N), k(k), l(l), Bgbit(Bgbit), t(t), basebit(basebit), ks_stdev(ks_stdev), bk_stdev(bk_stdev), max_stdev(max_stdev) {
-        lwe = new_LweParams(n, ks_stdev, max_stdev);
+    bool shared_lwe = false;
+    // share_extracted: the in/out LWE parameters ARE the accumulator's extracted parameter object (n = k*N): one LweParams object
+    // in both roles, a legal way to build a parameter set by hand
+    PSet(int n, int N, int k, int l, int Bgbit, int t, int basebit, double ks_stdev, double bk_stdev, double max_stdev = 0.012467, bool share_extracted = false)
+            : n(share_extracted ? k * N : n), N(N), k(k), l(l), Bgbit(Bgbit), t(t), basebit(basebit), ks_stdev(ks_stdev), bk_stdev(bk_stdev), max_stdev(max_stdev), shared_lwe(share_extracted) {
         tlwe = new_TLweParams(N, k, bk_stdev, max_stdev);
+        lwe = share_extracted ? (LweParams *) &tlwe->extracted_lweparams : new_LweParams(n, ks_stdev, max_stdev);
         tgsw = new_TGswParams(l, Bgbit, tlwe);
         gb = new TFheGateBootstrappingParameterSet(t, basebit, lwe, tgsw);
     }
-    ~PSet() { delete gb; delete_TGswParams(tgsw); delete_TLweParams(tlwe); delete_LweParams(lwe); }
+    ~PSet() { delete gb; delete_TGswParams(tgsw); delete_TLweParams(tlwe); if (!shared_lwe) delete_LweParams(lwe); }
     PSet(const PSet &) = delete;
     std::string name() const {
         char b[128]; snprintf(b, sizeof b, "n%d.N%d.k%d.l%d.Bg%d.t%d.bb%d", n, N, k, l, Bgbit, t, basebit); return b;
